@@ -713,6 +713,141 @@ def guard_chars(P, gk):
     return out
 
 
+def guard_limits(P, gk):
+    """-> (uncapped, per_char): the named locals of the guard whose value reaches, without going through a `min`, a comparison with a
+    constant; and for every character the guard switches on, the named locals stepped up on that character's own arm"""
+    b = P.body[gk]
+    idom = G.dominators(b)
+    name = lambda l: b["locals"][l].get("name")
+    defs = {}
+    for bi, bl in enumerate(b["blocks"]):
+        for st in bl["stmts"]:
+            if st["k"] == "assign" and not st["place"]["proj"]:
+                defs.setdefault(st["place"]["local"], []).append(("stmt", bi, st["rv"]))
+        t = bl["term"]
+        if t["k"] == "call" and t.get("dest") is not None and not t["dest"]["proj"]:
+            defs.setdefault(t["dest"]["local"], []).append(("call", bi, t))
+
+    def ops_of(rv):
+        if rv["k"] in ("use", "cast"):
+            return [rv["op"]]
+        if rv["k"] in ("bin",):
+            return [rv["l"], rv["r"]]
+        if rv["k"] == "un":
+            return [rv["op"]]
+        if rv["k"] == "ref":
+            return [{"copy": rv["place"]}]
+        return rv.get("ops", [])
+
+    def slice_uncapped(op):
+        seen, out, work = set(), set(), [op]
+        while work:
+            o = work.pop()
+            pl = MU.op_place(o)
+            if pl is None:
+                continue
+            l = pl["local"]
+            if l in seen:
+                continue
+            seen.add(l)
+            if name(l):
+                out.add(name(l))
+            for kind, bi, d in defs.get(l, []):
+                if kind == "stmt":
+                    work.extend(ops_of(d))
+                else:
+                    rp = MU.callee_names(d)[1]
+                    if re.search(r"::(min|clamp)$", rp):
+                        continue            # a capped quantity limits nothing
+                    work.extend(d["args"])
+        return out
+
+    uncapped = set()
+    for bl in b["blocks"]:
+        for st in bl["stmts"]:
+            if st["k"] == "assign" and st["rv"]["k"] == "bin" and st["rv"]["op"] in ("Gt", "Ge", "Lt", "Le"):
+                l, r = st["rv"]["l"], st["rv"]["r"]
+                if "const" in r and "const" not in l:
+                    uncapped |= slice_uncapped(l)
+                elif "const" in l and "const" not in r:
+                    uncapped |= slice_uncapped(r)
+    # blocks that hold a limit check: where every arm of the character switch ends up
+    stops = set()
+    for bi, bl in enumerate(b["blocks"]):
+        for st in bl["stmts"]:
+            if st["k"] == "assign" and st["rv"]["k"] == "bin" and st["rv"]["op"] in ("Gt", "Ge", "Lt", "Le") and ("const" in st["rv"]["l"]) != ("const" in st["rv"]["r"]):
+                stops.add(bi)
+
+    def through_copies(l):
+        for _ in range(4):
+            ds = defs.get(l, [])
+            if len(ds) == 1 and ds[0][0] == "stmt" and ds[0][2]["k"] == "use" and MU.op_place(ds[0][2]["op"]) is not None and not MU.op_place(ds[0][2]["op"])["proj"]:
+                l = MU.op_place(ds[0][2]["op"])["local"]
+            else:
+                break
+        return l
+
+    users = {}
+    for l, ds in defs.items():
+        for kind, bi, d in ds:
+            if kind == "stmt" and d["k"] == "use" and MU.op_place(d["op"]) is not None and not MU.op_place(d["op"])["proj"]:
+                users.setdefault(MU.op_place(d["op"])["local"], []).append(l)
+
+    def stepped_in(x):
+        """named locals that are stepped up in block x: `v = v + 1` (checked) or `v = v.saturating_add(..)`"""
+        out = set()
+        for st in b["blocks"][x]["stmts"]:
+            if st["k"] == "assign" and not st["place"]["proj"] and st["rv"]["k"] == "use":
+                src = MU.op_place(st["rv"]["op"])
+                if src is not None and name(st["place"]["local"]):
+                    for kind, bj, d in defs.get(src["local"], []):
+                        if kind == "stmt" and d["k"] == "bin" and d["op"] in ("AddWithOverflow", "Add"):
+                            lp = MU.op_place(d["l"])
+                            if lp is not None and name(through_copies(lp["local"])) == name(st["place"]["local"]):
+                                out.add(name(st["place"]["local"]))
+        tt = b["blocks"][x]["term"]
+        if tt["k"] == "call" and MU.callee_names(tt)[1].endswith("::saturating_add") and tt.get("dest") is not None and not tt["dest"]["proj"]:
+            d_ = tt["dest"]["local"]
+            targets = [d_] if name(d_) else [u for u in users.get(d_, []) if name(u)]
+            recv = MU.op_place(tt["args"][0])
+            r_ = name(through_copies(recv["local"])) if recv is not None else None
+            for t_ in targets:
+                if r_ is not None and r_ == name(t_):
+                    out.add(name(t_))
+        return out
+
+    def paths_from(tb, limit=400):
+        """sets of locals stepped up along every path from tb to a limit check (None when there are too many paths)"""
+        out = []
+        stack = [(tb, frozenset(), frozenset([tb]))]
+        while stack:
+            x, acc, seen = stack.pop()
+            acc = acc | stepped_in(x)
+            if x in stops:
+                out.append(acc)
+                if len(out) > limit:
+                    return None
+                continue
+            nxt = [y for y in G.succs(b, x, False) if y not in seen]
+            if not nxt:
+                continue            # return / diverging side: no further character is looked at
+            for y in nxt:
+                stack.append((y, acc, seen | {y}))
+        return out
+
+    per_char = {}
+    for bi, bl in enumerate(b["blocks"]):
+        t = bl["term"]
+        if t["k"] != "switch":
+            continue
+        pl = MU.op_place(t["discr"])
+        if pl is None or P.tys(gk, b["locals"][pl["local"]]["ty"]) != "char":
+            continue
+        for v, tb in t["targets"]:
+            per_char[chr(int(v))] = paths_from(tb)
+    return uncapped, per_char
+
+
 def guard_covers_grammar(P, g):
     guards = nesting_guards(P)
     if not guards:
@@ -725,6 +860,16 @@ def guard_covers_grammar(P, g):
         if missing:
             worst = "%s does not look at %s (%s): levels built with it are not limited" % (gk.split("::")[-1], ", ".join("`%s`" % c for c in missing[:6]),
                                                                                             "; ".join(sorted(toks[missing[0]]))[:60])
+            continue
+        # looking at a character is not limiting it: what it steps up must reach a comparison with a constant without being capped
+        uncapped, per_char = guard_limits(P, gk)
+        # on every way through the arm of a level-building character something is stepped up that a comparison limits
+        unlimited = sorted(c for c in toks if c in per_char and (per_char[c] is None or not per_char[c] or any(not (ps & uncapped) for ps in per_char[c])))
+        if unlimited:
+            ps = per_char[unlimited[0]] or []
+            bad = next((sorted(x) for x in ps if not (x & uncapped)), None)
+            worst = "%s counts %s only into %s on some way through its arm, which no comparison limits (limited: %s): levels built with it are not limited" % (
+                gk.split("::")[-1], ", ".join("`%s`" % c for c in unlimited[:6]), bad if bad is not None else "?", sorted(uncapped))
     if worst:
         return False, worst
     return True, "every token with which the grammar adds a level to an expression tree (%d first characters: nesting and chaining) is among the characters the guard counts" % len(toks)
